@@ -65,7 +65,7 @@ def compare(name, got_map, ref, grid, vs, how, case):
                 return
 
 
-def check_case(case, how=("call", "plot", "batch")):
+def check_case(case, how=("topdown", "call", "plot", "batch")):
     from BPTK_Py import bptk
 
     info = {"status": "ok"}
@@ -84,7 +84,17 @@ def check_case(case, how=("call", "plot", "batch")):
         info["status"] = "dsl-rejected:" + type(e).__name__
         return info, vs
     try:
-        if "call" in how:
+        if "topdown" in how and case["n"] <= 60:
+            # a fresh model queried top-down: the last grid point first (empty memo, t-dt chains all the way to the start)
+            m2, e2 = SM.build_dsl(case, name="c01td")
+            got = {nm: [e2[nm](grid[-1])] for nm in names}
+            want_last = {nm: [ref[nm][-1]] for nm in names}
+            compare("topdown", got, want_last, grid[-1:], vs, "fresh model, element(stop) first", case)
+            if not vs:
+                mid = len(grid) // 2
+                got = {nm: [e2[nm](grid[mid])] for nm in names}
+                compare("topdown", got, {nm: [ref[nm][mid]] for nm in names}, [grid[mid]], vs, "fresh model, element(mid) after element(stop)", case)
+        if "call" in how and not vs:
             got = {nm: [elems[nm](t) for t in grid] for nm in names}
             compare("call", got, ref, grid, vs, "element(t)", case)
         if "plot" in how and not vs:
